@@ -266,6 +266,13 @@ fn law(name: &str, e: &str, args: &[&str]) -> Option<String> {
             let m2 = entry(e, g1k(a), g2k(b) + g2k(c)) == entry(e, g1k(a), g2k(b)) * entry(e, g1k(a), g2k(c));
             format!("{},{}", s_bool(m1), s_bool(m2))
         }
+        ("additive2", [p1, p2, q1, q2]) => {
+            // additivity on explicit Jacobian representatives (any representative of any point, identity included)
+            let (p1, p2, q1, q2) = (p_g1(p1)?, p_g1(p2)?, p_g2(q1)?, p_g2(q2)?);
+            let m1 = entry(e, p1 + p2, q1) == entry(e, p1, q1) * entry(e, p2, q1);
+            let m2 = entry(e, p1, q1 + q2) == entry(e, p1, q1) * entry(e, p1, q2);
+            format!("{},{}", s_bool(m1), s_bool(m2))
+        }
         ("identity", [o1, o2]) => {
             let (o1, o2) = (p_g1(o1)?, p_g2(o2)?);
             let one = Gt::one();
